@@ -68,6 +68,8 @@ pub enum Ev {
 	TimerSleep { ns: u128 },
 	ThreadSleep { ns: u128 },
 	Op { what: String },
+	/// content hash of a file observed by the harness (account files around truncations/boots)
+	FileNote { path: String, sha: String, len: u64, when: String },
 	Panic { msg: String },
 }
 
@@ -117,6 +119,7 @@ pub struct World {
 	/// (event seq, when, snapshots) of the daemon's in-memory accounts
 	pub account_snaps: Vec<(u64, String, Vec<Option<super::snap::AccountSnap>>)>,
 	pub initial_global: super::plan::Global,
+	pub initial_account: (Vec<String>, Option<String>, Option<String>),
 }
 
 thread_local! {
@@ -149,6 +152,7 @@ impl World {
 		let faults = plan.faults.iter().map(|f| (f.clone(), 0)).collect();
 		let epoch0 = plan.world.epoch_unix;
 		let initial_global = plan.config.global.clone();
+		let initial_account = plan.config.accounts.first().map(|a| (a.contacts.clone(), a.external_account.as_ref().map(|e| e.identifier.clone()), a.key_type.clone())).unwrap_or_default();
 		World {
 			plan,
 			mono: 0,
@@ -177,7 +181,13 @@ impl World {
 			crash_now: false,
 			account_snaps: Vec::new(),
 			initial_global,
+			initial_account,
 		}
+	}
+
+	/// (contacts, eab kid, key type) of the first account as first configured
+	pub fn plan_initial_account(&self) -> (Vec<String>, Option<String>, Option<String>) {
+		self.initial_account.clone()
 	}
 
 	pub fn plan_initial_global(&self) -> super::plan::Global {
@@ -262,6 +272,7 @@ pub fn ev_kind(ev: &Ev) -> &'static str {
 		Ev::TimerSleep { .. } => "timer_sleep",
 		Ev::ThreadSleep { .. } => "thread_sleep",
 		Ev::Op { .. } => "op",
+		Ev::FileNote { .. } => "file_note",
 		Ev::Panic { .. } => "panic",
 	}
 }
